@@ -185,11 +185,25 @@ Section Agree.
     now destruct (in_cache s (conftest_py :: x) && is_imported dk roots s n (conftest_py :: x)).
   Qed.
 
-  Theorem available_agrees_with_goto f dir n :
-    conftests_known (f :: dir) ->
-    lookup_av n (available_cold dk roots s (f :: dir)) = closest dk roots s (f :: dir) n.
+  (** what a name denotes in the per-file view: the first stage that picks something *)
+  Definition cascade (f : string) (dir : path) (n : string) : option fdef :=
+    match pick_last (f :: dir) n with
+    | Some d => Some d
+    | None =>
+        match first_some (walk_step n) (ancestors dir) with
+        | Some d => Some d
+        | None =>
+            match pick_first (fun d => d_plugin d && negb (d_third d)) n with
+            | Some d => Some d
+            | None => pick_first d_third n
+            end
+        end
+    end.
+
+  Theorem available_lookup_cascade f dir n :
+    lookup_av n (available_cold dk roots s (f :: dir)) = cascade f dir n.
   Proof.
-    intros Hk. set (F := f :: dir).
+    set (F := f :: dir).
     assert (NDall : forall acc, ND acc ->
               ND (add_first s d_third (add_first s (fun d => d_plugin d && negb (d_third d))
                     (fold_left (fun acc dir => let c := conftest_py :: dir in add_imported dk roots s c (add_last s c acc)) (ancestors dir) acc)))).
@@ -203,7 +217,16 @@ Section Agree.
     rewrite (stage_def_names (pick_first _) n _ (pick_first_name _) (pick_first_nil _ n)).
     rewrite walk_lookup. rewrite add_last_stage.
     rewrite (stage_def_names (pick_last F) n [] (pick_last_name _) (pick_last_nil _ n)).
-    cbn [lookup_av find].
+    cbn [lookup_av find]. unfold cascade. fold F.
+    destruct (pick_last F n); [reflexivity|].
+    destruct (first_some (walk_step n) (ancestors dir)); reflexivity.
+  Qed.
+
+  Theorem available_agrees_with_goto f dir n :
+    conftests_known (f :: dir) ->
+    lookup_av n (available_cold dk roots s (f :: dir)) = closest dk roots s (f :: dir) n.
+  Proof.
+    intros Hk. rewrite available_lookup_cascade. unfold cascade. set (F := f :: dir).
     unfold closest, closest_with. unfold F at 3.
     destruct (defs_named s n) as [|d0 dn0] eqn:Edn.
     { (* no definition of that name *)
